@@ -24,6 +24,7 @@ def run_property(prop: str, tier: str, root: str | None = None) -> int:
     except ModuleNotFoundError:
         return analysis_error(prop, tier, "other", f"no checker implemented for {prop}")
     level = getattr(mod, "LEVEL", "other")
+    rep = None
     try:
         prog = Program(root)
         rep = Report(prop, tier, level)
@@ -42,6 +43,12 @@ def run_property(prop: str, tier: str, root: str | None = None) -> int:
         seed = int(os.environ.get("VERIF_SEED", "0") or 0)
         return rep.finish(seed)
     except AnalysisError as exc:
+        if rep is not None and any(o.verdict == "VIOLATED" for o in rep.obligations):
+            # a rule had already refuted the property before the analysis met something it cannot follow: the
+            # violation stands, the rest is reported as not decided
+            rep.rules.setdefault("ENGINE-ABORT", "the analysis of this property ran to its end")
+            rep.undecided("ENGINE-ABORT", "analysis aborted", "-", str(exc))
+            return rep.finish(int(os.environ.get("VERIF_SEED", "0") or 0))
         return analysis_error(prop, tier, level, str(exc))
     except Exception as exc:  # noqa: BLE001
         traceback.print_exc()
